@@ -286,38 +286,33 @@ Proof.
     apply keyeqb_eq in E. inversion E; subst. unfold handlers. rewrite El. auto.
 Qed.
 
-Lemma handlers_die env o st s n :
-  handlers (die env o st) s n
-  = if sender_truthy env s then filter (fun h => negb (memz o (h_wargs h))) (handlers st s n)
-    else handlers st s n.
+Lemma handlers_die o st s n :
+  handlers (die o st) s n = filter (fun h => negb (memz o (h_wargs h))) (handlers st s n).
 Proof.
   unfold handlers, die, set_dead, set_tab; cbn [st_tab].
-  rewrite (lookup_map_vals (fun k l => if sender_truthy env (fst k)
-                                        then filter (fun h => negb (memz o (h_wargs h))) l else l)).
-  cbn [fst]. destruct (lookup (st_tab st) (s, n)); cbn [option_map]; auto.
-  destruct (sender_truthy env s); auto.
+  rewrite (lookup_map_vals (fun k l => filter (fun h => negb (memz o (h_wargs h))) l)).
+  destruct (lookup (st_tab st) (s, n)); cbn [option_map]; auto.
 Qed.
 
-Lemma die_le env o st : Inv st -> le st (die env o st).
+Lemma die_le o st : Inv st -> le st (die o st).
 Proof.
   intros Hi. constructor.
   - intros s n. unfold keys. rewrite handlers_die.
-    replace (st_nkey (die env o st)) with (st_nkey st) by reflexivity.
-    destruct (sender_truthy env s); [|apply Hi]. split.
+    replace (st_nkey (die o st)) with (st_nkey st) by reflexivity.
+    split.
     + apply sorted_filter. apply Hi.
     + intros k Hk. apply in_map_iff in Hk. destruct Hk as [h [<- Hh]].
       apply (proj2 (Hi s n)). unfold keys. apply in_map. eapply filter_subset; eauto.
   - cbn; lia.
-  - intros s n h _ Hin. rewrite handlers_die in Hin.
-    destruct (sender_truthy env s); auto. eapply filter_subset; eauto.
+  - intros s n h _ Hin. rewrite handlers_die in Hin. eapply filter_subset; eauto.
   - intros x Hx. cbn. right; auto.
 Qed.
 
-Lemma fold_die_le env ds : forall st, Inv st -> le st (fold_left (fun s o => die env o s) ds st).
+Lemma fold_die_le ds : forall st, Inv st -> le st (fold_left (fun s o => die o s) ds st).
 Proof.
   induction ds as [|o ds IH]; cbn [fold_left]; intros st Hi.
   - apply le_refl; auto.
-  - eapply le_trans; [apply die_le; auto|]. apply IH. apply (le_inv _ _ (die_le env o st Hi)).
+  - eapply le_trans; [apply die_le; auto|]. apply IH. apply (le_inv _ _ (die_le o st Hi)).
 Qed.
 
 Lemma reap_le env gc st : Inv st -> le st (fst (reap env gc st)).
@@ -445,6 +440,7 @@ Section GenericCall.
     Inv st -> call_callback run env args h st = (st', evs, status, r) ->
     le st st' /\
     ((~ wargs_alive st h /\ st' = st /\ evs = [] /\ status = Done /\ r = false) \/
+     (wargs_alive st h /\ st' = st /\ evs = [] /\ status = Raised (-8)) \/
      (wargs_alive st h /\ exists ret, direct_calls evs = [the_call h ret] /\
         (status = Done -> ret = Some (sc_ret (script_of env (h_cb h))) /\ r = truthy (sc_ret (script_of env (h_cb h)))))).
   Proof.
@@ -453,7 +449,9 @@ Section GenericCall.
     - inversion Hc; subst. split; [apply le_refl; auto|]. left. repeat split; auto.
       intro Ha. apply dead_check_false in Ha. congruence.
     - apply dead_check_false in Ed.
-      set (st1 := set_held st (h_wargs h ++ st_held st)) in *.
+      destruct (e_maxcalls env <=? st_calls st).
+      { inversion Hc; subst. split; [apply le_refl; auto|]. right. left. repeat split; auto. }
+      set (st1 := set_held (set_calls st (st_calls st + 1)) (h_wargs h ++ st_held st)) in *.
       assert (Hc1 : same_core st st1) by (repeat split).
       pose proof (run_le (sc_ops (script_of env (h_cb h))) st1 (same_core_Inv _ _ Hc1 Hi)) as Hl.
       destruct (run (sc_ops (script_of env (h_cb h))) st1) as [[st2 body] s2]. cbn [fst] in Hl.
@@ -466,11 +464,11 @@ Section GenericCall.
         destruct (reap_events env false st2') as [ds Hds].
         destruct (reap env false st2') as [st3 died]. cbn [fst snd] in *. subst died.
         inversion Hc; subst. split; [eapply le_trans; eauto|].
-        right. split; auto. eexists. split.
+        right. right. split; auto. eexists. split.
         * cbn [direct_calls flat_map]. fold (direct_calls (map EvDied ds)). rewrite direct_calls_died. reflexivity.
         * intros _. split; reflexivity.
       + inversion Hc; subst. split; [eapply le_same_core_l; eauto|].
-        right. split; auto. eexists. split; [reflexivity|]. intros Hx; discriminate.
+        right. right. split; auto. eexists. split; [reflexivity|]. intros Hx; discriminate.
   Qed.
 
   (* the specification of the loop of emit over a (suffix of the) snapshot *)
@@ -511,7 +509,7 @@ Section GenericCall.
           { intros x Hx. destruct (Hstart x Hx) as [Hk Ha]. split.
             - apply (le_keys st st1 s n (h_key x) Hl1); [apply Hbr; eapply sublist_In; eauto | exact Hk].
             - intros w Hw Hd. apply (Ha w Hw). apply (le_dead _ _ Hl1); auto. }
-          destruct Hcase as [[Hna [-> [-> [_ ->]]]] | [Ha [ret [Hdc Hret]]]].
+          destruct Hcase as [[Hna [-> [-> [_ ->]]]] | [[_ [_ [_ Hx]]] | [Ha [ret [Hdc Hret]]]]]; [|discriminate|].
           -- (* a weak argument is dead: returns False without calling *)
              exists called. cbn [app]. split; [apply sl_skip; auto|]. split; auto. split; auto.
              intros Hd. destruct (Hdone Hd) as [Hall [Hrets Hres]]. split; [|split; auto].
@@ -530,10 +528,13 @@ Section GenericCall.
                    unfold ret_truthy at 1, the_call, c_ret; cbn [snd]. rewrite orb_false_r, orb_assoc. reflexivity.
         * (* an exception left the callback *)
           inversion Hq; subst; clear Hq. split; auto.
-          destruct Hcase as [[_ [_ [_ [Hx _]]]] | [Ha [ret [Hdc Hret]]]]; [discriminate|].
-          exists [h]. split; [apply sl_take; apply sublist_nil_l|]. split; [rewrite Hdc; reflexivity|]. split.
-          -- intros x [<-|[]]. split; auto. apply memz_In; auto.
-          -- intros Hx; discriminate.
+          destruct Hcase as [[_ [_ [_ [Hx _]]]] | [[_ [_ [-> _]]] | [Ha [ret [Hdc Hret]]]]]; [discriminate| |].
+          -- (* the call budget of the case is exhausted: the callback refuses to run *)
+             exists []. split; [apply sublist_nil_l|]. split; [reflexivity|]. split; [intros x []|].
+             intros Hx; discriminate.
+          -- exists [h]. split; [apply sl_take; apply sublist_nil_l|]. split; [rewrite Hdc; reflexivity|]. split.
+             ++ intros x [<-|[]]. split; auto. apply memz_In; auto.
+             ++ intros Hx; discriminate.
       + (* disconnected in the meantime: skipped *)
         destruct (IH _ _ _ _ _ _ Hi Hbr Hq) as [Hl [called [Hsub [Hsig [Hstart Hdone]]]]].
         split; auto. exists called. split; [apply sl_skip; auto|]. split; auto. split; auto.
@@ -772,13 +773,14 @@ Proof.
 Qed.
 
 Lemma emit_turn_called run env args s n h post st res :
-  In (h_key h) (keys st s n) -> wargs_alive st h ->
+  In (h_key h) (keys st s n) -> wargs_alive st h -> st_calls st < e_maxcalls env ->
   exists body ret rest,
     snd (fst (fst (emit_loop (call_callback run env args) s n (h :: post) st res)))
     = EvCall (h_key h) (h_cb h) (argv_of h args) body ret :: rest.
 Proof.
-  intros Hk Ha. cbn [emit_loop]. apply memz_In in Hk. rewrite Hk. cbn [negb].
+  intros Hk Ha Hb. cbn [emit_loop]. apply memz_In in Hk. rewrite Hk. cbn [negb].
   apply dead_check_false in Ha. unfold call_callback. rewrite Ha.
+  apply Z.leb_gt in Hb. rewrite Hb.
   destruct (run _ _) as [[st2 body] s2]. destruct s2.
   - destruct (reap env false _) as [st3 died].
     destruct (emit_loop _ s n post st3 _) as [[[st4 e4] s4] r4]. cbn. eauto.
@@ -885,15 +887,13 @@ Lemma removed_keys_stay_removed_history fuel env ops st s n k :
 Proof. intros Hi Hk Hn Hin. apply Hn. eapply le_keys; eauto. apply run_top_le; auto. Qed.
 
 (* dropping the last reference to an object nobody holds: it dies at once and exactly the
-   handlers that reference it weakly are removed (senders that are true in a boolean context) *)
+   handlers that reference it weakly are removed *)
 Lemma kill_unheld_proof fuel env o st :
   In o (st_reg st) -> ~ In o (st_held st) -> cyclic env o = false -> st_pend st = [] ->
   exists st',
     run_op fuel env (OKill o) st = (st', [EvKill o 0; EvDied o], Done) /\
     In o (st_dead st') /\
-    forall s n, handlers st' s n =
-      if sender_truthy env s then filter (fun h => negb (memz o (h_wargs h))) (handlers st s n)
-      else handlers st s n.
+    forall s n, handlers st' s n = filter (fun h => negb (memz o (h_wargs h))) (handlers st s n).
 Proof.
   intros Hr Hh Hc Hp.
   assert (run_op fuel env (OKill o) st = kill env o st) by (destruct fuel; reflexivity).
